@@ -59,6 +59,16 @@ def run(facts, cg=None):
         Explorer(b, r).run()
         for kind, loc, guard in r.violations:
             finding('R-VERIFYOUT', b, 'bypass', 'a success path with verify_output=%s skips the output checksum comparison' % guard)
+        # ... and it looks at the output in its final form: on a regular file the digest is taken after the resize (a longer prior
+        # output still has its stale tail before; the comparison then fails every run - or, were it cut later, would pass on
+        # bytes that are not the result)
+        is_digest = lambda b_, bi, t: bi in cmp_blocks or ('q' in t['callee'] and callee_q(t).endswith('::file_checksum'))
+        r = GuardedStep(b, is_resize, guard_block_device(T), bypass_value=True, also_at=is_digest, origin=origin_block_device(T))
+        Explorer(b, r).run()
+        for kind, loc, guard in r.violations:
+            if kind == 'before':
+                finding('R-VERIFYOUT', b, 'verify-before-resize', 'the output checksum is compared at %s before the regular-file output was cut to the source '
+                        'size: a prior output that was longer is verified with its stale tail' % loc)
         # ---------------- R-HDRPIN (+ before the output is opened)
         sites = hash_compare_sites(b, T, lambda a: has_field(a, 'header_checksum') and not has_call(a, 'Archive::header_checksum'),
                                    lambda a: has_call(a, 'Archive::header_checksum'))
@@ -166,4 +176,25 @@ def run(facts, cg=None):
         for obi, ot in opens:
             if not any(ib in dom.get(obi, ()) for ib in inits):
                 finding('R-DOMINATES', b, 'open-before-validate', 'output opened at %s on a path that has not validated the archive' % ot['loc'])
+    # ---------------- the block-device test looks at the object that is written (the opened file), not at a name: the same
+    # path can be a symlink to a device (/dev/disk/by-label/..) - lstat() says "not a device" and the size check is skipped
+    n_bd = 0
+    for b in facts.bodies.values():
+        if b.crate != 'bita' or b.generated:
+            continue
+        calls = [callee_q(t) for _, t in b.calls() if 'q' in t['callee']]
+        if not any(q.endswith(('::st_mode', '::is_block_device')) for q in calls):
+            continue
+        n_bd += 1
+        on_file = any(q.endswith('fs::file::File::metadata') or q == 'std::fs::File::metadata' for q in calls)
+        by_name = [q for q in calls if q.split('::')[-1] in ('symlink_metadata', 'metadata') and 'File::' not in q and '::fs::' in q]
+        instances.append({'rule': 'R-SIZECHECK(object)', 'function': b.q, 'metadata_of_open_file': on_file, 'metadata_by_path': by_name})
+        if by_name or not on_file:
+            key = 'R-SIZECHECK|%s|device-test-by-name' % b.q
+            if key not in {x['key'] for x in findings}:
+                findings.append({'rule': 'R-SIZECHECK', 'key': key, 'function': b.q,
+                                 'what': 'whether the output is a block device is decided from %s, not from the metadata of the opened file: a symbolic link to a '
+                                         'device is taken for a regular file, its size is not checked before it is written' % (by_name or 'something else')})
+    if n_bd < 1:
+        findings.append({'rule': 'R-SIZECHECK', 'key': 'R-SIZECHECK|-|floor-device-test', 'function': '-', 'what': 'the block-device test of the clone command was not found (cannot decide)'})
     return instances, findings
